@@ -151,7 +151,20 @@ def work(task):
   return work_agg(*task[1:])
 
 
+_WARMED = [False]
+
+
+def warm_up_other_dialects():
+  """a SQLite evaluation must not depend on which dialects were compiled earlier in the process"""
+  if _WARMED[0]: return
+  _WARMED[0] = True
+  for eng in ('trino', 'psql', 'bigquery', 'clickhouse', 'duckdb'):
+    t = '@Engine("%s");\nA(1, "a,b", [1, 2]);\nT(ArrayConcat(l, l), Split(s, ","), Size(l), Greatest(x, 2), Least(x, 2), ToString(x), Join(Split(s, ","), "-"), Sort(l), Element(l, 0), Range(2)) :- A(x, s, l);\n' % eng
+    impl.Compiled(t).sql('T')
+
+
 def work_scalar(name):
+  warm_up_other_dialects()
   tmpl, tuples, f = scalar_builtins()[name]
   arity = len(tuples[0])
   cols = ['a', 'b', 'c'][:arity]
@@ -204,6 +217,7 @@ def work_scalar(name):
 
 
 def work_agg(name, n, shard, nsh):
+  warm_up_other_dialects()
   text_rule, oracle = aggregates()[name]
   text = '@Engine("sqlite");\n' + text_rule + '\n'
   stats = dict(evaluations=0, compiles=1, comparisons=0, cases=0); viol = []
